@@ -57,8 +57,11 @@ def digest_arrays(*arrays):
 
 def quiet():
     """Silence the library's logging and progress bars (never a decision input)."""
+    import warnings
+
     logging.disable(logging.CRITICAL)
     os.environ.setdefault("TQDM_DISABLE", "1")
+    warnings.filterwarnings("ignore")
 
 
 class Violation(dict):
